@@ -23,6 +23,8 @@ type conType struct {
 	inits []initSpec // small initial contents, built sequentially before the threads start
 	final func(inst any) string
 	probe func(inst any) // post-run usability probe (C01)
+	// c01only: a scenario family about several shared instances at once (no single-element alphabet)
+	c01only bool
 }
 
 type opSpec struct {
@@ -37,6 +39,24 @@ type initSpec struct {
 }
 
 func lessInt(a, b int) bool { return a < b }
+
+// grownSizes: non-initial start states of the slice-backed containers -- grown to 100 elements and
+// reduced to m, for every m in a window that contains the sizes where capacity-dependent logic
+// (shrinking, compaction, ring wrap-around) switches over (powers of two and their neighbours).
+func grownSizes() []int {
+	var out []int
+	for m := 6; m <= 34; m++ {
+		if thorough || m <= 9 || (m >= 15 && m <= 18) || m >= 31 {
+			out = append(out, m)
+		}
+	}
+	if thorough {
+		for m := 35; m <= 70; m++ {
+			out = append(out, m)
+		}
+	}
+	return out
+}
 
 func errStr(err error) string {
 	if err != nil {
@@ -68,6 +88,21 @@ func conTypes() []*conType {
 				s := stack.New[int]()
 				for _, v := range c {
 					s.Push(v)
+				}
+				return s
+			}})
+		}
+		// a non-initial start: a stack that had grown (40 elements) and was popped down to 16 -- its
+		// backing array is four times its length, where shrinking/compaction logic would kick in
+		for _, m := range grownSizes() {
+			m := m
+			t.inits = append(t.inits, initSpec{fmt.Sprintf("grown-to-100-popped-to-%d", m), func() any {
+				s := stack.New[int]()
+				for v := 0; v < 100; v++ {
+					s.Push(v%2 + 1)
+				}
+				for v := 0; v < 100-m; v++ {
+					s.Pop()
 				}
 				return s
 			}})
@@ -139,6 +174,19 @@ func conTypes() []*conType {
 				q := queue.New[int]()
 				for _, v := range c {
 					q.Enqueue(v)
+				}
+				return q
+			}})
+		}
+		for _, m := range grownSizes() {
+			m := m
+			t.inits = append(t.inits, initSpec{fmt.Sprintf("grown-to-100-dequeued-to-%d", m), func() any {
+				q := queue.New[int]()
+				for v := 0; v < 100; v++ {
+					q.Enqueue(v%2 + 1)
+				}
+				for v := 0; v < 100-m; v++ {
+					q.Dequeue()
 				}
 				return q
 			}})
@@ -239,6 +287,19 @@ func conTypes() []*conType {
 				return h
 			}})
 		}
+		for _, m := range grownSizes() {
+			m := m
+			t.inits = append(t.inits, initSpec{fmt.Sprintf("grown-to-100-popped-to-%d", m), func() any {
+				h := heap.NewHeap(lessInt)
+				for v := 0; v < 100; v++ {
+					h.Push(v%2 + 1)
+				}
+				for v := 0; v < 100-m; v++ {
+					h.Pop()
+				}
+				return h
+			}})
+		}
 		t.final = func(i any) string {
 			h := i.(H)
 			out := fmt.Sprintf("size=%d:", h.Size())
@@ -248,6 +309,46 @@ func conTypes() []*conType {
 			return out
 		}
 		t.probe = func(i any) { h := i.(H); h.Push(9); h.Pop(); h.Size() }
+		ts = append(ts, t)
+	}
+	// ---- two shared heaps used as each other's argument (Merge/Meld take a second heap)
+	{
+		type P = [2]*heap.Heap[int]
+		t := &conType{name: "HeapPair", c01only: true}
+		for _, d := range [][2]int{{0, 1}, {1, 0}} {
+			d := d
+			n := fmt.Sprintf("%c<-%c", 'A'+d[0], 'A'+d[1])
+			t.extra = append(t.extra,
+				opSpec{"Meld(" + n + ")", "Meld " + n, func(i any) string { p := i.(P); return fmt.Sprint(p[d[0]].Meld(p[d[1]]).Size()) }},
+				opSpec{"Merge(" + n + ")", "Merge " + n, func(i any) string { p := i.(P); return fmt.Sprint(p[d[0]].Merge(p[d[1]]).Size()) }},
+			)
+		}
+		for _, x := range []int{0, 1} {
+			x := x
+			n := string(rune('A' + x))
+			t.extra = append(t.extra,
+				opSpec{"Push(" + n + ")", "Push 7 on " + n, func(i any) string { i.(P)[x].Push(7); return "" }},
+				opSpec{"Pop(" + n + ")", "Pop on " + n, func(i any) string { return fmt.Sprint(i.(P)[x].Pop()) }},
+			)
+		}
+		for _, c := range [][]int{{}, {1}, {1, 2, 2}} {
+			c := c
+			t.inits = append(t.inits, initSpec{fmt.Sprint(c), func() any {
+				a, b := heap.NewHeap(lessInt), heap.NewHeap(lessInt)
+				a.Push(c...)
+				b.Push(c...)
+				b.Push(4)
+				return P{a, b}
+			}})
+		}
+		t.final = func(i any) string { p := i.(P); return fmt.Sprint(p[0].Size(), p[1].Size()) }
+		t.probe = func(i any) {
+			for _, h := range i.(P) {
+				h.Push(9)
+				h.Pop()
+				h.Size()
+			}
+		}
 		ts = append(ts, t)
 	}
 	// ---- BsTree
